@@ -126,6 +126,7 @@ Token *tokenize_file(char *filename);
 //
 
 char *search_include_paths(char *filename);
+extern int include_next_idx;
 void init_macros(void);
 void define_macro(char *name, char *buf);
 void undef_macro(char *name);
